@@ -1,10 +1,1065 @@
-From Coq Require Import ZArith List Bool Lia.
+(* C13 lemmas.  Structure:
+   A dict / B vectors / C vote accumulation is additive / D molecule table = sum of fragment contributions /
+   E argmax+mask = unique strict maximum / F consensus characterisation (any skip rule, any input) /
+   G under the base precondition a fragment's contribution is the indicator of its one call /
+   H majority theorem, corollaries / I permutation and duplication / J pick_best / K read dictionary *)
+From Coq Require Import ZArith List Bool Lia Permutation Arith.
 Import ListNotations.
 From SCMO Require Import Lib.Val Model.C13.
 Open Scope Z_scope.
-Lemma pick2_hi b1 q1 b2 q2 : 0 <= q2 < q1 -> pick_best [Some (b1, q1); Some (b2, q2)] = (b1, q1).
+
+(* ------------------------------------------------------------------ A. dict *)
+Lemma key_eqb_eq a b : key_eqb a b = true <-> a = b.
 Proof.
-  intros H. unfold pick_best, pb_result, pb_step, pb_init. cbn [fold_left pb_q pb_base pb_tie].
-  destruct (q1 >? -1) eqn:E1; [|lia]. cbn [pb_q pb_base pb_tie].
-  destruct (q2 >? q1) eqn:E2; [lia|]. destruct (q2 =? q1) eqn:E3; [lia|]. reflexivity.
+  destruct a as [a1 a2], b as [b1 b2]. unfold key_eqb. cbn [fst snd].
+  rewrite andb_true_iff, !Z.eqb_eq. split; [intros [-> ->]; reflexivity | intros H; inversion H; auto].
+Qed.
+Lemma key_eqb_refl a : key_eqb a a = true.
+Proof. apply key_eqb_eq. reflexivity. Qed.
+Lemma key_eqb_neq a b : key_eqb a b = false <-> a <> b.
+Proof.
+  split.
+  - intros H E. apply key_eqb_eq in E. congruence.
+  - intros H. destruct (key_eqb a b) eqn:E; [apply key_eqb_eq in E; contradiction | reflexivity].
+Qed.
+Lemma key_eqb_sym a b : key_eqb a b = key_eqb b a.
+Proof.
+  destruct (key_eqb a b) eqn:E; symmetry.
+  - apply key_eqb_eq in E. subst. apply key_eqb_refl.
+  - apply key_eqb_neq. apply key_eqb_neq in E. congruence.
+Qed.
+
+Section DictFacts.
+  Context {V : Type}.
+  Implicit Types d : dict V.
+
+  Lemma dget_dset k k' (v : V) d : dget k (dset k' v d) = if key_eqb k k' then Some v else dget k d.
+  Proof.
+    induction d as [|[k0 v0] d IH]; cbn [dset dget].
+    - reflexivity.
+    - destruct (key_eqb k' k0) eqn:E0; cbn [dget].
+      + apply key_eqb_eq in E0. subst k0. destruct (key_eqb k k'); reflexivity.
+      + rewrite IH. destruct (key_eqb k k0) eqn:E1; [|reflexivity].
+        apply key_eqb_eq in E1. subst k0. rewrite key_eqb_sym, E0. reflexivity.
+  Qed.
+
+  Lemma dget_none_iff k d : dget k d = None <-> ~ In k (dkeys d).
+  Proof.
+    induction d as [|[k0 v0] d IH]; cbn [dget dkeys map In fst].
+    - tauto.
+    - destruct (key_eqb k k0) eqn:E.
+      + apply key_eqb_eq in E. subst. split; [discriminate | intros H; exfalso; apply H; auto].
+      + apply key_eqb_neq in E. unfold dkeys in IH. rewrite IH. split; [intros H [H1|H1]; [congruence|auto] | tauto].
+  Qed.
+
+  Lemma dget_some_in k d v : dget k d = Some v -> In (k, v) d.
+  Proof.
+    induction d as [|[k0 v0] d IH]; cbn [dget]; [discriminate|].
+    destruct (key_eqb k k0) eqn:E.
+    - apply key_eqb_eq in E. subst. intros H; inversion H; subst. left; reflexivity.
+    - intros H. right. auto.
+  Qed.
+
+  Lemma dkeys_dset_in k k' (v : V) d : In k (dkeys (dset k' v d)) <-> k = k' \/ In k (dkeys d).
+  Proof.
+    induction d as [|[k0 v0] d IH]; cbn [dset dkeys map In fst].
+    - intuition.
+    - destruct (key_eqb k' k0) eqn:E; cbn [map In fst].
+      + apply key_eqb_eq in E. subst. intuition congruence.
+      + unfold dkeys in IH. rewrite IH. intuition congruence.
+  Qed.
+
+  Lemma dkeys_dset_nodup k (v : V) d : NoDup (dkeys d) -> NoDup (dkeys (dset k v d)).
+  Proof.
+    induction d as [|[k0 v0] d IH]; cbn [dset dkeys map fst]; intros H.
+    - constructor; [intros []|constructor].
+    - inversion H as [|? ? Hn Hd]; subst. destruct (key_eqb k k0) eqn:E; cbn [map fst].
+      + constructor; assumption.
+      + constructor; [|apply IH; assumption].
+        intros Hin. apply (dkeys_dset_in k0 k v d) in Hin. destruct Hin as [->|Hin]; [|contradiction].
+        rewrite key_eqb_refl in E. discriminate.
+  Qed.
+
+  Lemma dict_of_nodup (items : list (key * V)) : NoDup (dkeys (dict_of items)).
+  Proof.
+    unfold dict_of. assert (G : forall d, NoDup (dkeys d) ->
+      NoDup (dkeys (fold_left (fun d kv => dset (fst kv) (snd kv) d) items d))).
+    { induction items as [|kv items IH]; intros d Hd; cbn [fold_left]; [assumption|].
+      apply IH. apply dkeys_dset_nodup. assumption. }
+    apply G. constructor.
+  Qed.
+End DictFacts.
+
+(* ------------------------------------------------------------------ B. vectors *)
+Lemma vnth_vincr i j v : (i < 5)%nat -> vnth j (vincr i v) = vnth j v + (if Nat.eqb i j then 1 else 0).
+Proof.
+  intros Hi. destruct v as [[[[a c] g] t] n].
+  do 5 (destruct i as [|i]; [do 5 (destruct j as [|j]; [cbn; lia|]); cbn; destruct j; cbn; lia|]). lia.
+Qed.
+Lemma vnth_zeros j : vnth j zeros = 0.
+Proof. do 5 (destruct j as [|j]; [reflexivity|]). destruct j; reflexivity. Qed.
+Lemma vnth_ge5 j v : (5 <= j)%nat -> vnth j v = 0.
+Proof. intros H. destruct v as [[[[a c] g] t] n]. do 5 (destruct j as [|j]; [lia|]). destruct j; reflexivity. Qed.
+Lemma vlist_length v : length (vlist v) = 5%nat.
+Proof. destruct v as [[[[a c] g] t] n]. reflexivity. Qed.
+
+Lemma base_index_lt b i : base_index b = Some i -> (i < 5)%nat.
+Proof.
+  unfold base_index. repeat (match goal with |- context [if ?c then _ else _] => destruct c end);
+    intros H; inversion H; lia.
+Qed.
+Lemma index_base_index b i : base_index b = Some i -> index_base i = b.
+Proof.
+  unfold base_index.
+  destruct (b =? bA) eqn:E0; [intros H; inversion H; apply Z.eqb_eq in E0; subst; reflexivity|].
+  destruct (b =? bC) eqn:E1; [intros H; inversion H; apply Z.eqb_eq in E1; subst; reflexivity|].
+  destruct (b =? bG) eqn:E2; [intros H; inversion H; apply Z.eqb_eq in E2; subst; reflexivity|].
+  destruct (b =? bT) eqn:E3; [intros H; inversion H; apply Z.eqb_eq in E3; subst; reflexivity|].
+  destruct (b =? bN) eqn:E4; [intros H; inversion H; apply Z.eqb_eq in E4; subst; reflexivity|].
+  discriminate.
+Qed.
+Lemma base_index_base i : (i < 5)%nat -> base_index (index_base i) = Some i.
+Proof. intros H. do 5 (destruct i as [|i]; [reflexivity|]). lia. Qed.
+
+(* ------------------------------------------------------------------ C. vote accumulation is additive *)
+Lemma tget_nil k : tget k [] = zeros.
+Proof. reflexivity. Qed.
+Lemma tget_tincr k k' i t : tget k (tincr k' i t) = if key_eqb k k' then vincr i (tget k' t) else tget k t.
+Proof. unfold tincr, tget at 1. rewrite dget_dset. destruct (key_eqb k k'); reflexivity. Qed.
+
+Lemma vote_items_add items : forall t k j,
+  vnth j (tget k (vote_items items t)) = vnth j (tget k t) + vnth j (tget k (vote_items items [])).
+Proof.
+  induction items as [|[k' [b q]] rest IH]; intros t k j; cbn [vote_items].
+  - rewrite tget_nil, vnth_zeros. lia.
+  - destruct (b =? bN); [apply IH|].
+    destruct (base_index b) as [i|] eqn:Ei; [|rewrite tget_nil, vnth_zeros; lia].
+    rewrite (IH (tincr k' i t)), (IH (tincr k' i [])). rewrite !tget_tincr.
+    destruct (key_eqb k k') eqn:E.
+    + apply key_eqb_eq in E. subst k'. rewrite !vnth_vincr by (eapply base_index_lt; eassumption).
+      rewrite tget_nil, vnth_zeros. lia.
+    + rewrite tget_nil, vnth_zeros. lia.
+Qed.
+
+Lemma tincr_nodup k i t : NoDup (dkeys t) -> NoDup (dkeys (tincr k i t)).
+Proof. apply dkeys_dset_nodup. Qed.
+Lemma vote_items_nodup items : forall t, NoDup (dkeys t) -> NoDup (dkeys (vote_items items t)).
+Proof.
+  induction items as [|[k' [b q]] rest IH]; intros t H; cbn [vote_items]; [assumption|].
+  destruct (b =? bN); [auto|]. destruct (base_index b); [|assumption]. apply IH, tincr_nodup, H.
+Qed.
+
+(* ------------------------------------------------------------------ D. molecule table = sum of contributions *)
+Lemma zsum_cons x l : zsum (x :: l) = x + zsum l.
+Proof. reflexivity. Qed.
+Lemma zsum_app l1 l2 : zsum (l1 ++ l2) = zsum l1 + zsum l2.
+Proof.
+  induction l1 as [|x l1 IH]; [reflexivity|].
+  change ((x :: l1) ++ l2) with (x :: (l1 ++ l2)). rewrite !zsum_cons, IH. lia.
+Qed.
+Lemma zsum_perm l1 l2 : Permutation l1 l2 -> zsum l1 = zsum l2.
+Proof.
+  intros H. induction H as [|x l l' H IH|x y l|l l' l'' H1 IH1 H2 IH2].
+  - reflexivity.
+  - rewrite !zsum_cons, IH. reflexivity.
+  - rewrite !zsum_cons. lia.
+  - congruence.
+Qed.
+
+Section Mol.
+  Variable skip : bool -> frag -> bool.
+
+  (* what one fragment adds to component j of the vote vector at k *)
+  Definition contrib (ds : bool) (f : frag) (k : key) (j : nat) : Z :=
+    if skip ds f then 0 else
+    match frag_consensus ds f with
+    | Ok items => vnth j (tget k (vote_items items []))
+    | _ => 0
+    end.
+  (* the fragment makes Molecule.get_consensus raise IndexError *)
+  Definition raises (ds : bool) (f : frag) : bool :=
+    negb (skip ds f) && match frag_consensus ds f with IndexError => true | _ => false end.
+  Definition V (ds : bool) (fs : list frag) (k : key) (j : nat) : Z := zsum (map (fun f => contrib ds f k j) fs).
+
+  Lemma mol_table_cons ds f rest t :
+    mol_table skip ds (f :: rest) t =
+    if skip ds f then mol_table skip ds rest t
+    else match frag_consensus ds f with
+         | Ok items => mol_table skip ds rest (vote_items items t)
+         | ValueError => mol_table skip ds rest t
+         | IndexError => IndexError
+         end.
+  Proof. reflexivity. Qed.
+
+  Lemma mol_table_sum ds fs : forall t t', mol_table skip ds fs t = Ok t' ->
+    forall k j, vnth j (tget k t') = vnth j (tget k t) + V ds fs k j.
+  Proof.
+    induction fs as [|f rest IH]; intros t t' H k j.
+    - cbn in H. inversion H; subst. unfold V. cbn. lia.
+    - rewrite mol_table_cons in H. unfold V. cbn [map]. rewrite zsum_cons. fold (V ds rest k j).
+      unfold contrib. destruct (skip ds f).
+      + rewrite (IH _ _ H). lia.
+      + destruct (frag_consensus ds f) as [items| |].
+        * rewrite (IH _ _ H). rewrite vote_items_add. lia.
+        * rewrite (IH _ _ H). lia.
+        * discriminate.
+  Qed.
+
+  Lemma mol_table_nodup ds fs : forall t t', NoDup (dkeys t) -> mol_table skip ds fs t = Ok t' -> NoDup (dkeys t').
+  Proof.
+    induction fs as [|f rest IH]; intros t t' Hn H.
+    - cbn in H. inversion H; subst. assumption.
+    - rewrite mol_table_cons in H. destruct (skip ds f); [eauto|].
+      destruct (frag_consensus ds f) as [items| |]; [|eauto|discriminate].
+      eapply IH; [|eassumption]. apply vote_items_nodup. assumption.
+  Qed.
+
+  (* outcome: IndexError iff some fragment that is not skipped has fewer than two slots; never ValueError *)
+  Lemma mol_table_outcome ds fs : forall t,
+    (existsb (raises ds) fs = true /\ mol_table skip ds fs t = IndexError) \/
+    (existsb (raises ds) fs = false /\ exists t', mol_table skip ds fs t = Ok t').
+  Proof.
+    induction fs as [|f rest IH]; intros t.
+    - right. split; [reflexivity|]. exists t. reflexivity.
+    - rewrite mol_table_cons. cbn [existsb]. unfold raises at 1 3.
+      destruct (skip ds f); cbn [negb andb orb]; [apply IH|].
+      destruct (frag_consensus ds f) as [items| |]; cbn [orb]; [apply IH|apply IH|].
+      left. split; reflexivity.
+  Qed.
+
+  (* ---------------------------------------------------------------- E. finish *)
+  Lemma dget_app_l {A} k (d1 d2 : dict A) v : dget k d1 = Some v -> dget k (d1 ++ d2) = Some v.
+  Proof.
+    induction d1 as [|[k0 v0] d1 IH]; cbn [dget app]; [discriminate|].
+    destruct (key_eqb k k0); auto.
+  Qed.
+  Lemma dget_app_r {A} k (d1 d2 : dict A) : dget k d1 = None -> dget k (d1 ++ d2) = dget k d2.
+  Proof.
+    induction d1 as [|[k0 v0] d1 IH]; cbn [dget app]; [reflexivity|].
+    destruct (key_eqb k k0); [discriminate|auto].
+  Qed.
+
+  Lemma dget_finish t k : NoDup (dkeys t) ->
+    dget k (finish t) = match dget k t with Some v => call_of_vec v | None => None end.
+  Proof.
+    induction t as [|[k0 v0] t IH]; intros Hn; [reflexivity|].
+    cbn [dkeys map fst] in Hn. inversion Hn as [|? ? Hnot Hn']; subst.
+    unfold finish. cbn [flat_map fst snd dget]. fold (finish t).
+    destruct (key_eqb k k0) eqn:E.
+    - apply key_eqb_eq in E. subst k0.
+      destruct (call_of_vec v0) as [b|]; cbn [app dget]; [rewrite key_eqb_refl; reflexivity|].
+      rewrite (IH Hn'). apply dget_none_iff in Hnot. rewrite Hnot. reflexivity.
+    - destruct (call_of_vec v0) as [b|]; cbn [app dget]; [rewrite E|]; apply IH; assumption.
+  Qed.
+End Mol.
+
+(* ------------------------------------------------------------------ E'. argmax + uniqueness mask = unique strict maximum *)
+Lemma fr_max_ge d l : d <= fold_right Z.max d l /\ forall x, In x l -> x <= fold_right Z.max d l.
+Proof.
+  induction l as [|y l [IH1 IH2]]; cbn [fold_right In]; [split; [lia|tauto]|].
+  split; [lia|]. intros x [->|H]; [lia|]. specialize (IH2 x H). lia.
+Qed.
+Lemma fr_max_in d l : fold_right Z.max d l = d \/ In (fold_right Z.max d l) l.
+Proof.
+  induction l as [|y l IH]; cbn [fold_right In]; [left; reflexivity|].
+  destruct (Z.max_spec y (fold_right Z.max d l)) as [[_ E]|[_ E]]; rewrite E; [|right; left; reflexivity].
+  destruct IH as [IH|IH]; [left; assumption | right; right; assumption].
+Qed.
+Lemma lmax_ge l x : In x l -> x <= lmax l.
+Proof. unfold lmax. apply fr_max_ge. Qed.
+Lemma lmax_in l : l <> [] -> In (lmax l) l.
+Proof.
+  destruct l as [|y l]; [congruence|]. intros _. unfold lmax. cbn [hd].
+  destruct (fr_max_in y (y :: l)) as [E|H]; [rewrite E; left; reflexivity | assumption].
+Qed.
+
+Lemma count_eq_cons m x r : count_eq m (x :: r) = if m =? x then S (count_eq m r) else count_eq m r.
+Proof. unfold count_eq. cbn [filter]. destruct (m =? x); reflexivity. Qed.
+Lemma count_eq_zero m l : (forall x, In x l -> x <> m) -> count_eq m l = 0%nat.
+Proof.
+  induction l as [|x r IH]; intros H; [reflexivity|]. rewrite count_eq_cons.
+  destruct (m =? x) eqn:E; [apply Z.eqb_eq in E; exfalso; apply (H x); [left; reflexivity|congruence]|].
+  apply IH. intros y Hy. apply H. right. assumption.
+Qed.
+Lemma count_eq_zero_inv m l : count_eq m l = 0%nat -> forall x, In x l -> x <> m.
+Proof.
+  induction l as [|x r IH]; intros H y []; rewrite count_eq_cons in H; destruct (m =? x) eqn:E; try discriminate.
+  - subst. apply Z.eqb_neq in E. congruence.
+  - apply IH; assumption.
+Qed.
+
+Lemma count_first m l : forall i, (i < length l)%nat -> nth i l 0 = m ->
+  (forall j, (j < length l)%nat -> j <> i -> nth j l 0 <> m) -> count_eq m l = 1%nat /\ first_idx m l = i.
+Proof.
+  induction l as [|x r IH]; intros i Hi Hm Ho; [cbn in Hi; lia|].
+  rewrite count_eq_cons. cbn [first_idx]. destruct i as [|i].
+  - cbn in Hm. subst x. rewrite !Z.eqb_refl. split; [|reflexivity]. f_equal. apply count_eq_zero.
+    intros y Hy. destruct (In_nth _ _ 0 Hy) as (j & Hj & <-). apply (Ho (S j)); cbn [length]; lia.
+  - assert (Hx : x <> m) by (apply (Ho 0%nat); cbn [length]; lia).
+    destruct (m =? x) eqn:E; [apply Z.eqb_eq in E; congruence|].
+    destruct (x =? m) eqn:E'; [apply Z.eqb_eq in E'; congruence|].
+    cbn [length nth] in *. destruct (IH i) as [H1 H2]; [lia|assumption| |split; [assumption|congruence]].
+    intros j Hj Hji. apply (Ho (S j)); lia.
+Qed.
+
+Lemma count_one m l : count_eq m l = 1%nat ->
+  (first_idx m l < length l)%nat /\ nth (first_idx m l) l 0 = m /\
+  forall j, (j < length l)%nat -> nth j l 0 = m -> j = first_idx m l.
+Proof.
+  induction l as [|x r IH]; intros H; [discriminate|].
+  rewrite count_eq_cons in H. cbn [first_idx length].
+  destruct (m =? x) eqn:E.
+  - apply Z.eqb_eq in E. subst x. rewrite Z.eqb_refl. split; [lia|]. split; [reflexivity|].
+    intros j Hj Hn. destruct j as [|j]; [reflexivity|]. exfalso. cbn [nth] in Hn.
+    assert (H0 : count_eq m r = 0%nat) by lia.
+    apply (count_eq_zero_inv _ _ H0 (nth j r 0)); [apply nth_In; lia|assumption].
+  - destruct (x =? m) eqn:E'; [apply Z.eqb_eq in E'; apply Z.eqb_neq in E; congruence|].
+    destruct (IH H) as (H1 & H2 & H3). split; [lia|]. split; [assumption|].
+    intros j Hj Hn. destruct j as [|j]; [cbn in Hn; apply Z.eqb_neq in E'; congruence|].
+    f_equal. apply H3; [lia|assumption].
+Qed.
+
+Lemma call_of_list_spec l b : l <> [] ->
+  call_of_list l = Some b <->
+  exists i, (i < length l)%nat /\ b = index_base i /\
+            forall j, (j < length l)%nat -> j <> i -> nth j l 0 < nth i l 0.
+Proof.
+  intros Hne. unfold call_of_list. split.
+  - destruct (Nat.eqb (count_eq (lmax l) l) 1) eqn:E; [|discriminate]. apply Nat.eqb_eq in E.
+    intros H. inversion H; subst b. clear H.
+    destruct (count_one _ _ E) as (H1 & H2 & H3). exists (first_idx (lmax l) l). split; [assumption|].
+    split; [reflexivity|]. intros j Hj Hne'. rewrite H2.
+    assert (nth j l 0 <= lmax l) by (apply lmax_ge, nth_In; assumption).
+    assert (nth j l 0 <> lmax l) by (intros Eq; apply Hne', H3; assumption). lia.
+  - intros (i & Hi & -> & Hs).
+    assert (Hm : lmax l = nth i l 0).
+    { destruct (In_nth _ _ 0 (lmax_in l Hne)) as (j & Hj & Ej).
+      destruct (Nat.eq_dec j i) as [->|Hji]; [symmetry; assumption|].
+      specialize (Hs j Hj Hji). assert (nth i l 0 <= lmax l) by (apply lmax_ge, nth_In; assumption). lia. }
+    destruct (count_first (lmax l) l i Hi (eq_sym Hm)) as [H1 H2].
+    { intros j Hj Hji. specialize (Hs j Hj Hji). lia. }
+    rewrite H1, H2. reflexivity.
+Qed.
+
+Lemma call_of_vec_spec v b :
+  call_of_vec v = Some b <->
+  exists i, (i < 5)%nat /\ b = index_base i /\ forall j, (j < 5)%nat -> j <> i -> vnth j v < vnth i v.
+Proof.
+  unfold call_of_vec. rewrite call_of_list_spec by (destruct v as [[[[a c] g] t] n]; discriminate).
+  rewrite vlist_length. reflexivity.
+Qed.
+Lemma call_of_vec_zeros : call_of_vec zeros = None.
+Proof. reflexivity. Qed.
+
+(* two options characterised by the same predicate are equal *)
+Lemma opt_ext {A} (o1 o2 : option A) : (forall b, o1 = Some b <-> o2 = Some b) -> o1 = o2.
+Proof.
+  intros H. destruct o1 as [a|], o2 as [b|]; try reflexivity.
+  - apply H. reflexivity.
+  - specialize (H a). destruct H as [H _]. specialize (H eq_refl). discriminate.
+  - specialize (H b). destruct H as [_ H]. specialize (H eq_refl). discriminate.
+Qed.
+
+(* ------------------------------------------------------------------ F. consensus characterisation (any skip rule, any input) *)
+Definition strict_max (W : nat -> Z) (i : nat) : Prop :=
+  (i < 5)%nat /\ forall j, (j < 5)%nat -> j <> i -> W j < W i.
+
+Section Cons.
+  Variable skip : bool -> frag -> bool.
+
+  Lemma mol_consensus_ok ds fs out : mol_consensus skip ds fs = Ok out ->
+    exists t, mol_table skip ds fs [] = Ok t /\ out = finish t /\ NoDup (dkeys t) /\
+              forall k j, vnth j (tget k t) = V skip ds fs k j.
+  Proof.
+    unfold mol_consensus. destruct (mol_table skip ds fs []) as [t| |] eqn:E; try discriminate.
+    intros H. inversion H; subst. exists t. split; [reflexivity|]. split; [reflexivity|].
+    split; [eapply mol_table_nodup; [|eassumption]; constructor|].
+    intros k j. rewrite (mol_table_sum skip ds fs [] t E k j), tget_nil, vnth_zeros. lia.
+  Qed.
+
+  Lemma consensus_general ds fs out k b : mol_consensus skip ds fs = Ok out ->
+    (dget k out = Some b <-> exists i, b = index_base i /\ strict_max (V skip ds fs k) i).
+  Proof.
+    intros H. destruct (mol_consensus_ok _ _ _ H) as (t & Ht & -> & Hn & Hv).
+    rewrite dget_finish by assumption.
+    assert (E : match dget k t with Some v => call_of_vec v | None => None end = call_of_vec (tget k t)).
+    { unfold tget. destruct (dget k t); [reflexivity|symmetry; apply call_of_vec_zeros]. }
+    rewrite E, call_of_vec_spec. unfold strict_max. split.
+    - intros (i & Hi & -> & Hs). exists i. split; [reflexivity|]. split; [assumption|].
+      intros j Hj Hji. rewrite <- !Hv. auto.
+    - intros (i & -> & Hi & Hs). exists i. split; [assumption|]. split; [reflexivity|].
+      intros j Hj Hji. rewrite !Hv. auto.
+  Qed.
+
+  Lemma mol_consensus_outcome ds fs :
+    (existsb (raises skip ds) fs = true /\ mol_consensus skip ds fs = IndexError) \/
+    (existsb (raises skip ds) fs = false /\ exists out, mol_consensus skip ds fs = Ok out).
+  Proof.
+    unfold mol_consensus. destruct (mol_table_outcome skip ds fs []) as [[H1 H2]|[H1 [t H2]]]; rewrite H2.
+    - left. split; [assumption|reflexivity].
+    - right. split; [assumption|]. eexists. reflexivity.
+  Qed.
+End Cons.
+
+(* ------------------------------------------------------------------ G. a fragment's contribution is the indicator of its one call *)
+Lemma pb_fold_base cs : forall s b, pb_base (fold_left pb_step cs s) = Some b ->
+  pb_base s = Some b \/ exists q, In (Some (b, q)) cs.
+Proof.
+  induction cs as [|c cs IH]; intros s b H; cbn [fold_left] in H; [left; assumption|].
+  destruct (IH _ _ H) as [H1|[q Hq]]; [|right; exists q; right; assumption].
+  destruct c as [[b0 q0]|]; cbn [pb_step] in H1; [|left; assumption].
+  destruct (q0 >? pb_q s).
+  - cbn in H1. inversion H1; subst. right. exists q0. left. reflexivity.
+  - destruct ((q0 =? pb_q s) && negb (opt_is (pb_base s) b0)); cbn in H1; left; assumption.
+Qed.
+Lemma pick_best_base cs b q : pick_best cs = (b, q) -> b = bN \/ exists q', In (Some (b, q')) cs.
+Proof.
+  unfold pick_best, pb_result. destruct (pb_base (fold_left pb_step cs pb_init)) as [b'|] eqn:E.
+  - destruct (pb_tie _); intros H; inversion H; subst; [left; reflexivity|].
+    destruct (pb_fold_base _ _ _ E) as [H1|H1]; [discriminate|right; assumption].
+  - intros H; inversion H. left; reflexivity.
+Qed.
+
+Lemma dict_of_get {A} (items : list (key * A)) k v : dget k (dict_of items) = Some v -> In (k, v) items.
+Proof.
+  unfold dict_of.
+  assert (G : forall d, dget k (fold_left (fun d kv => dset (fst kv) (snd kv) d) items d) = Some v ->
+                        dget k d = Some v \/ In (k, v) items).
+  { induction items as [|[k0 v0] items IH]; intros d H; cbn [fold_left] in H; [left; assumption|].
+    destruct (IH _ H) as [H1|H1]; [|right; right; assumption].
+    cbn [fst snd] in H1. rewrite dget_dset in H1. destruct (key_eqb k k0) eqn:E; [|left; assumption].
+    apply key_eqb_eq in E. subst. inversion H1; subst. right. left. reflexivity. }
+  intros H. destruct (G [] H) as [H1|H1]; [discriminate|assumption].
+Qed.
+
+Lemma read_dict_base_ok w o d k b q : read_dict w o = Ok d ->
+  match o with Some r => read_bases_ok r = true | None => True end ->
+  dget k d = Some (b, q) -> base_index b <> None.
+Proof.
+  destruct o as [r|]; cbn [read_dict]; [|intros H; inversion H; subst; discriminate].
+  destruct (r_md r); [|discriminate]. intros H Hok Hg. inversion H; subst. clear H.
+  apply dict_of_get in Hg. unfold read_items in Hg. apply in_map_iff in Hg.
+  destruct Hg as ([[p b'] q'] & Heq & Hin). inversion Heq; subst. apply filter_In in Hin. destruct Hin as [Hin _].
+  unfold read_bases_ok in Hok. rewrite forallb_forall in Hok. specialize (Hok _ Hin). cbn in Hok.
+  destruct (base_index b); [discriminate|discriminate].
+Qed.
+
+Lemma nodup_app {A} (l1 l2 : list A) : NoDup l1 -> NoDup l2 -> (forall x, In x l1 -> ~ In x l2) -> NoDup (l1 ++ l2).
+Proof.
+  induction l1 as [|x l1 IH]; intros H1 H2 Hd; [assumption|].
+  inversion H1; subst. cbn [app]. constructor.
+  - rewrite in_app_iff. intros [H|H]; [contradiction|]. apply (Hd x); [left; reflexivity|assumption].
+  - apply IH; [assumption|assumption|]. intros y Hy. apply Hd. right. assumption.
+Qed.
+
+Lemma dmem_keys {A} k (d : dict A) : existsb (key_eqb k) (dkeys d) = dmem k d.
+Proof.
+  unfold dmem. induction d as [|[k0 v0] d IH]; [reflexivity|]. cbn [dkeys map fst existsb dget].
+  destruct (key_eqb k k0); [reflexivity|]. apply IH.
+Qed.
+Lemma existsb_filter_key k p l : existsb (key_eqb k) (filter p l) = p k && existsb (key_eqb k) l.
+Proof.
+  induction l as [|x l IH]; cbn [filter existsb]; [rewrite andb_false_r; reflexivity|].
+  destruct (key_eqb k x) eqn:E.
+  - apply key_eqb_eq in E. subst x. destruct (p k); cbn [existsb]; [rewrite key_eqb_refl; reflexivity|].
+    rewrite IH. reflexivity.
+  - destruct (p x); cbn [existsb]; [rewrite E|]; rewrite IH; cbn [orb]; reflexivity.
+Qed.
+Lemma union_keys_mem k d1 d2 : existsb (key_eqb k) (union_keys d1 d2) = dmem k d1 || dmem k d2.
+Proof.
+  unfold union_keys. rewrite existsb_app, existsb_filter_key, !dmem_keys.
+  destruct (dmem k d1), (dmem k d2); reflexivity.
+Qed.
+Lemma union_keys_nodup d1 d2 : NoDup (dkeys d1) -> NoDup (dkeys d2) -> NoDup (union_keys d1 d2).
+Proof.
+  intros H1 H2. unfold union_keys. apply nodup_app; [assumption|apply NoDup_filter; assumption|].
+  intros x Hx Hf. apply filter_In in Hf. destruct Hf as [_ Hf]. unfold dmem in Hf.
+  destruct (dget x d1) eqn:E; [discriminate|]. apply dget_none_iff in E. contradiction.
+Qed.
+
+Lemma dget_map_keys {A} (g : key -> A) ks k :
+  dget k (map (fun k => (k, g k)) ks) = if existsb (key_eqb k) ks then Some (g k) else None.
+Proof.
+  induction ks as [|k0 ks IH]; [reflexivity|]. cbn [map dget existsb].
+  destruct (key_eqb k k0) eqn:E; [apply key_eqb_eq in E; subst; reflexivity|]. apply IH.
+Qed.
+Lemma dkeys_map_keys {A} (g : key -> A) ks : dkeys (map (fun k => (k, g k)) ks) = ks.
+Proof. unfold dkeys. rewrite map_map. cbn [fst]. apply map_id. Qed.
+
+Lemma read_dict_nodup w o d : read_dict w o = Ok d -> NoDup (dkeys d).
+Proof.
+  destruct o as [r|]; cbn [read_dict].
+  - destruct (r_md r); [|discriminate]. intros H; inversion H. apply dict_of_nodup.
+  - intros H; inversion H. constructor.
+Qed.
+
+(* the pieces of Fragment.get_consensus when it returns *)
+Lemma frag_consensus_ok ds f items : frag_consensus ds f = Ok items ->
+  exists r1 r2 w d1 d2, nth_error f 0 = Some r1 /\ nth_error f 1 = Some r2 /\ window ds r1 r2 = Ok w /\
+    read_dict w r1 = Ok d1 /\ read_dict w r2 = Ok d2 /\
+    items = map (fun k => (k, pick_best [dget k d1; dget k d2])) (union_keys d1 d2).
+Proof.
+  unfold frag_consensus. destruct (nth_error f 0) as [r1|] eqn:E1; [|discriminate].
+  destruct (nth_error f 1) as [r2|] eqn:E2; [|discriminate].
+  destruct (window ds r1 r2) as [w| |] eqn:E3; try discriminate.
+  destruct (read_dict w r1) as [d1| |] eqn:E4; try discriminate.
+  destruct (read_dict w r2) as [d2| |] eqn:E5; try discriminate.
+  intros H. inversion H. exists r1, r2, w, d1, d2. repeat split; assumption.
+Qed.
+
+Lemma frag_items_nodup ds f items : frag_consensus ds f = Ok items -> NoDup (dkeys items).
+Proof.
+  intros H. destruct (frag_consensus_ok _ _ _ H) as (r1 & r2 & w & d1 & d2 & _ & _ & _ & H1 & H2 & ->).
+  rewrite dkeys_map_keys. apply union_keys_nodup; eapply read_dict_nodup; eassumption.
+Qed.
+
+Lemma frag_slot_ok f n o : frag_bases_ok f = true -> nth_error f n = Some o ->
+  match o with Some r => read_bases_ok r = true | None => True end.
+Proof.
+  intros H Hn. unfold frag_bases_ok in H. rewrite forallb_forall in H. specialize (H _ (nth_error_In _ _ Hn)).
+  destruct o; [assumption|exact I].
+Qed.
+
+Lemma frag_items_bases ds f items : frag_consensus ds f = Ok items -> frag_bases_ok f = true ->
+  forall k b q, In (k, (b, q)) items -> base_index b <> None.
+Proof.
+  intros H Hok k b q Hin.
+  destruct (frag_consensus_ok _ _ _ H) as (r1 & r2 & w & d1 & d2 & E1 & E2 & _ & H1 & H2 & ->).
+  apply in_map_iff in Hin. destruct Hin as (k' & Heq & _). inversion Heq; subst k'. clear Heq.
+  match goal with H : pick_best _ = _ |- _ => apply pick_best_base in H; destruct H as [->|[q' Hq]] end; [discriminate|].
+  destruct Hq as [Hq|[Hq|[]]].
+  - eapply read_dict_base_ok; [exact H1|eapply frag_slot_ok; eassumption|exact Hq].
+  - eapply read_dict_base_ok; [exact H2|eapply frag_slot_ok; eassumption|exact Hq].
+Qed.
+
+Definition item_ind (o : option call) (j : nat) : Z :=
+  match o with
+  | Some (b, _) => if b =? bN then 0 else
+                   match base_index b with Some i => if Nat.eqb i j then 1 else 0 | None => 0 end
+  | None => 0
+  end.
+
+Lemma vote_items_ind (items : dict call) : NoDup (dkeys items) ->
+  (forall k b q, In (k, (b, q)) items -> base_index b <> None) ->
+  forall k j, vnth j (tget k (vote_items items [])) = item_ind (dget k items) j.
+Proof.
+  induction items as [|[k' [b q]] rest IH]; intros Hn Hb k j.
+  - cbn [vote_items dget item_ind]. rewrite tget_nil, vnth_zeros. reflexivity.
+  - cbn [dkeys map fst] in Hn. inversion Hn as [|? ? Hnot Hn']; subst.
+    assert (Hb' : forall k b q, In (k, (b, q)) rest -> base_index b <> None)
+      by (intros; eapply Hb; right; eassumption).
+    specialize (IH Hn' Hb'). apply dget_none_iff in Hnot.
+    cbn [vote_items dget]. destruct (b =? bN) eqn:EN.
+    + rewrite IH. destruct (key_eqb k k') eqn:E; [|reflexivity].
+      apply key_eqb_eq in E. subst k'. rewrite Hnot. cbn [item_ind]. rewrite EN. reflexivity.
+    + destruct (base_index b) as [i|] eqn:Ei; [|exfalso; eapply Hb; [left; reflexivity|assumption]].
+      rewrite vote_items_add, tget_tincr, IH. destruct (key_eqb k k') eqn:E.
+      * apply key_eqb_eq in E. subst k'. rewrite Hnot, tget_nil.
+        rewrite vnth_vincr by (eapply base_index_lt; eassumption). rewrite vnth_zeros.
+        cbn [item_ind]. rewrite EN, Ei. lia.
+      * rewrite tget_nil, vnth_zeros. lia.
+Qed.
+
+(* ------------------------------------------------------------------ H. majority *)
+Definition call_ind (o : option Z) (j : nat) : Z :=
+  match o with
+  | Some b => match base_index b with Some i => if Nat.eqb i j then 1 else 0 | None => 0 end
+  | None => 0
+  end.
+
+Definition bases_ok (fs : list frag) : Prop := forall f, In f fs -> frag_bases_ok f = true.
+Definition res_equiv (a b : Res (dict Z)) : Prop :=
+  match a, b with
+  | Ok x, Ok y => forall k, dget k x = dget k y
+  | ValueError, ValueError => True
+  | IndexError, IndexError => True
+  | _, _ => False
+  end.
+
+Section Major.
+  Variable skip : bool -> frag -> bool.
+
+  Lemma frag_call_items ds f items k : skip ds f = false -> frag_consensus ds f = Ok items ->
+    frag_call skip ds f k =
+    match dget k items with Some (b, _) => if b =? bN then None else Some b | None => None end.
+  Proof.
+    intros Hs H. destruct (frag_consensus_ok _ _ _ H) as (r1 & r2 & w & d1 & d2 & E1 & E2 & E3 & H1 & H2 & ->).
+    unfold frag_call. rewrite Hs, E1, E2, E3, H1, H2, dget_map_keys, union_keys_mem. unfold dmem.
+    destruct (dget k d1) as [c1|], (dget k d2) as [c2|]; cbn [orb]; try reflexivity;
+      destruct (pick_best _) as [b q]; reflexivity.
+  Qed.
+
+  Lemma frag_call_none ds f k :
+    (skip ds f = true \/ forall items, frag_consensus ds f <> Ok items) -> frag_call skip ds f k = None.
+  Proof.
+    unfold frag_call, frag_consensus. destruct (skip ds f); [reflexivity|]. intros [H|H]; [discriminate|].
+    destruct (nth_error f 0) as [r1|]; [|reflexivity]. destruct (nth_error f 1) as [r2|]; [|reflexivity].
+    destruct (window ds r1 r2) as [w| |]; try reflexivity.
+    destruct (read_dict w r1) as [d1| |]; try reflexivity.
+    destruct (read_dict w r2) as [d2| |]; try reflexivity.
+    exfalso. eapply H. reflexivity.
+  Qed.
+
+  Lemma frag_call_not_N ds f k : frag_call skip ds f k <> Some bN.
+  Proof.
+    unfold frag_call. destruct (skip ds f); [discriminate|].
+    destruct (nth_error f 0) as [r1|]; [|discriminate]. destruct (nth_error f 1) as [r2|]; [|discriminate].
+    destruct (window ds r1 r2) as [w| |]; try discriminate.
+    destruct (read_dict w r1) as [d1| |]; try discriminate.
+    destruct (read_dict w r2) as [d2| |]; try discriminate.
+    destruct (dget k d1) as [c1|], (dget k d2) as [c2|]; try discriminate;
+      destruct (fst (pick_best _) =? bN) eqn:E; try discriminate;
+      intros H; inversion H as [H']; rewrite H' in E; discriminate.
+  Qed.
+
+  Lemma contrib_ind ds f k j : frag_bases_ok f = true ->
+    contrib skip ds f k j = call_ind (frag_call skip ds f k) j.
+  Proof.
+    intros Hok. unfold contrib. destruct (skip ds f) eqn:Hs.
+    - rewrite frag_call_none by (left; assumption). reflexivity.
+    - destruct (frag_consensus ds f) as [items| |] eqn:E.
+      + rewrite vote_items_ind; [|eapply frag_items_nodup; eassumption|eapply frag_items_bases; eassumption].
+        rewrite (frag_call_items _ _ _ _ Hs E). unfold item_ind, call_ind.
+        destruct (dget k items) as [[b q]|]; [|reflexivity]. destruct (b =? bN); reflexivity.
+      + rewrite frag_call_none; [reflexivity|]. right. intros items. rewrite E. discriminate.
+      + rewrite frag_call_none; [reflexivity|]. right. intros items. rewrite E. discriminate.
+  Qed.
+
+  Lemma call_ind_opt_is o j : (j < 5)%nat -> call_ind o j = if opt_is o (index_base j) then 1 else 0.
+  Proof.
+    intros Hj. destruct o as [b|]; [|reflexivity]. cbn [call_ind opt_is].
+    destruct (base_index b) as [i|] eqn:Ei.
+    - pose proof (index_base_index _ _ Ei) as Hb. destruct (Nat.eqb i j) eqn:E.
+      + apply Nat.eqb_eq in E. subst i. rewrite Hb, Z.eqb_refl. reflexivity.
+      + destruct (b =? index_base j) eqn:E'; [|reflexivity]. apply Z.eqb_eq in E'. clear Hb. subst b.
+        rewrite base_index_base in Ei by assumption. inversion Ei; subst. rewrite Nat.eqb_refl in E. discriminate.
+    - destruct (b =? index_base j) eqn:E'; [|reflexivity]. apply Z.eqb_eq in E'. subst b.
+      rewrite base_index_base in Ei by assumption. discriminate.
+  Qed.
+
+  Lemma V_votes ds fs k j : bases_ok fs -> (j < 5)%nat -> V skip ds fs k j = votes skip ds fs k (index_base j).
+  Proof.
+    intros Hok Hj. unfold V, votes. f_equal. apply map_ext_in. intros f Hf.
+    rewrite contrib_ind by (apply Hok; assumption). apply call_ind_opt_is. assumption.
+  Qed.
+
+  Lemma votes_nonneg ds fs k b : 0 <= votes skip ds fs k b.
+  Proof.
+    unfold votes. induction fs as [|f fs IH]; cbn [map]; [cbn; lia|]. rewrite zsum_cons.
+    destruct (opt_is _ b); lia.
+  Qed.
+  Lemma votes_N ds fs k : votes skip ds fs k bN = 0.
+  Proof.
+    unfold votes. induction fs as [|f fs IH]; cbn [map]; [reflexivity|]. rewrite zsum_cons, IH.
+    destruct (frag_call skip ds f k) as [b|] eqn:E; cbn [opt_is]; [|reflexivity].
+    destruct (b =? bN) eqn:E'; [|reflexivity]. apply Z.eqb_eq in E'. subst b.
+    exfalso. eapply frag_call_not_N. eassumption.
+  Qed.
+
+  Definition is_majority (ds : bool) (fs : list frag) (k : key) (b : Z) : Prop :=
+    In b acgt /\ forall b', In b' acgt -> b' <> b -> votes skip ds fs k b' < votes skip ds fs k b.
+
+  Lemma strict_max_majority ds fs k b : bases_ok fs ->
+    (exists i, b = index_base i /\ strict_max (V skip ds fs k) i) <-> is_majority ds fs k b.
+  Proof.
+    intros Hok.
+    assert (HV : forall j, (j < 5)%nat -> V skip ds fs k j = votes skip ds fs k (index_base j))
+      by (intros; apply V_votes; assumption).
+    pose proof (votes_N ds fs k) as HN.
+    pose proof (votes_nonneg ds fs k bA) as GA. pose proof (votes_nonneg ds fs k bC) as GC.
+    pose proof (votes_nonneg ds fs k bG) as GG. pose proof (votes_nonneg ds fs k bT) as GT.
+    unfold is_majority, strict_max, acgt. split.
+    - intros (i & -> & Hi & Hs).
+      pose proof (Hs 0%nat) as S0. pose proof (Hs 1%nat) as S1. pose proof (Hs 2%nat) as S2.
+      pose proof (Hs 3%nat) as S3. pose proof (Hs 4%nat) as S4.
+      rewrite !HV in S0, S1, S2, S3, S4 by lia. cbn [index_base nth] in S0, S1, S2, S3, S4.
+      assert (Hc : (i = 0 \/ i = 1 \/ i = 2 \/ i = 3 \/ i = 4)%nat) by lia.
+      destruct Hc as [->|[->|[->|[->| ->]]]]; cbn [index_base nth] in *.
+      + split; [cbn; tauto|]. intros b' [<-|[<-|[<-|[<-|[]]]]] Hne; try congruence; [apply S1|apply S2|apply S3]; lia.
+      + split; [cbn; tauto|]. intros b' [<-|[<-|[<-|[<-|[]]]]] Hne; try congruence; [apply S0|apply S2|apply S3]; lia.
+      + split; [cbn; tauto|]. intros b' [<-|[<-|[<-|[<-|[]]]]] Hne; try congruence; [apply S0|apply S1|apply S3]; lia.
+      + split; [cbn; tauto|]. intros b' [<-|[<-|[<-|[<-|[]]]]] Hne; try congruence; [apply S0|apply S1|apply S2]; lia.
+      + exfalso. assert (votes skip ds fs k bA < votes skip ds fs k bN) by (apply S0; lia). lia.
+    - intros [Hin Hs].
+      assert (HAC : bA <> bC) by discriminate. assert (HAG : bA <> bG) by discriminate.
+      assert (HAT : bA <> bT) by discriminate. assert (HCG : bC <> bG) by discriminate.
+      assert (HCT : bC <> bT) by discriminate. assert (HGT : bG <> bT) by discriminate.
+      pose proof (Hs bA) as SA. pose proof (Hs bC) as SC. pose proof (Hs bG) as SG. pose proof (Hs bT) as ST.
+      cbn [In] in SA, SC, SG, ST.
+      destruct Hin as [<-|[<-|[<-|[<-|[]]]]].
+      + exists 0%nat. split; [reflexivity|]. split; [lia|]. intros j Hj Hne. rewrite !HV by lia.
+        assert (Hc : (j = 1 \/ j = 2 \/ j = 3 \/ j = 4)%nat) by lia.
+        destruct Hc as [->|[->|[->| ->]]]; cbn [index_base nth];
+          [apply SC|apply SG|apply ST|rewrite HN; assert (votes skip ds fs k bC < votes skip ds fs k bA) by (apply SC; [tauto|congruence]); lia];
+          try tauto; congruence.
+      + exists 1%nat. split; [reflexivity|]. split; [lia|]. intros j Hj Hne. rewrite !HV by lia.
+        assert (Hc : (j = 0 \/ j = 2 \/ j = 3 \/ j = 4)%nat) by lia.
+        destruct Hc as [->|[->|[->| ->]]]; cbn [index_base nth];
+          [apply SA|apply SG|apply ST|rewrite HN; assert (votes skip ds fs k bA < votes skip ds fs k bC) by (apply SA; [tauto|congruence]); lia];
+          try tauto; congruence.
+      + exists 2%nat. split; [reflexivity|]. split; [lia|]. intros j Hj Hne. rewrite !HV by lia.
+        assert (Hc : (j = 0 \/ j = 1 \/ j = 3 \/ j = 4)%nat) by lia.
+        destruct Hc as [->|[->|[->| ->]]]; cbn [index_base nth];
+          [apply SA|apply SC|apply ST|rewrite HN; assert (votes skip ds fs k bA < votes skip ds fs k bG) by (apply SA; [tauto|congruence]); lia];
+          try tauto; congruence.
+      + exists 3%nat. split; [reflexivity|]. split; [lia|]. intros j Hj Hne. rewrite !HV by lia.
+        assert (Hc : (j = 0 \/ j = 1 \/ j = 2 \/ j = 4)%nat) by lia.
+        destruct Hc as [->|[->|[->| ->]]]; cbn [index_base nth];
+          [apply SA|apply SC|apply SG|rewrite HN; assert (votes skip ds fs k bA < votes skip ds fs k bT) by (apply SA; [tauto|congruence]); lia];
+          try tauto; congruence.
+  Qed.
+
+  Theorem majority_iff ds fs out k b : bases_ok fs -> mol_consensus skip ds fs = Ok out ->
+    (dget k out = Some b <-> is_majority ds fs k b).
+  Proof.
+    intros Hok H. rewrite (consensus_general skip ds fs out k b H). apply strict_max_majority. assumption.
+  Qed.
+End Major.
+
+(* ------------------------------------------------------------------ H'. the computed majority, tie / N corollaries, totality *)
+Section Major2.
+  Variable skip : bool -> frag -> bool.
+
+  Lemma majority_unique ds fs k b1 b2 : is_majority skip ds fs k b1 -> is_majority skip ds fs k b2 -> b1 = b2.
+  Proof.
+    intros [I1 H1] [I2 H2]. destruct (Z.eq_dec b1 b2) as [E|E]; [assumption|].
+    specialize (H1 b2 I2 (not_eq_sym E)). specialize (H2 b1 I1 E). lia.
+  Qed.
+
+  Lemma majority_pred ds fs k b : In b acgt ->
+    forallb (fun b' => (b' =? b) || (votes skip ds fs k b' <? votes skip ds fs k b)) acgt = true <->
+    (forall b', In b' acgt -> b' <> b -> votes skip ds fs k b' < votes skip ds fs k b).
+  Proof.
+    intros _. rewrite forallb_forall. split.
+    - intros H b' Hin Hne. specialize (H b' Hin). apply orb_true_iff in H. destruct H as [H|H].
+      + apply Z.eqb_eq in H. contradiction.
+      + apply Z.ltb_lt. assumption.
+    - intros H b' Hin. destruct (b' =? b) eqn:E; [reflexivity|]. apply Z.eqb_neq in E. cbn [orb].
+      apply Z.ltb_lt. auto.
+  Qed.
+
+  Lemma majority_spec ds fs k b : majority skip ds fs k = Some b <-> is_majority skip ds fs k b.
+  Proof.
+    unfold majority. split.
+    - intros H. apply find_some in H. destruct H as [Hin H]. split; [assumption|]. apply majority_pred; assumption.
+    - intros Hm. destruct (find _ acgt) as [b0|] eqn:E.
+      + f_equal. apply find_some in E. destruct E as [Hin0 H0]. pose proof (proj1 (majority_pred ds fs k b0 Hin0) H0) as H0'.
+        apply (majority_unique ds fs k); [split; [exact Hin0|exact H0']|assumption].
+      + exfalso. destruct Hm as [Hin Hs]. pose proof (find_none _ _ E b Hin) as Hn. cbv beta in Hn.
+        pose proof (proj2 (majority_pred ds fs k b Hin) Hs) as Hp. congruence.
+  Qed.
+
+  Theorem consensus_is_majority ds fs out k : bases_ok fs -> mol_consensus skip ds fs = Ok out ->
+    dget k out = majority skip ds fs k.
+  Proof.
+    intros Hok H. apply opt_ext. intros b. rewrite majority_spec. apply majority_iff; assumption.
+  Qed.
+
+  Lemma opt_eqb_refl o : opt_eqb o o = true.
+  Proof. destruct o; cbn; [apply Z.eqb_refl|reflexivity]. Qed.
+
+  Theorem specb_sound ds fs out : bases_ok fs -> mol_consensus skip ds fs = Ok out -> specb skip ds fs out = true.
+  Proof.
+    intros Hok H. unfold specb. apply forallb_forall. intros k _.
+    rewrite (consensus_is_majority ds fs out k Hok H). apply opt_eqb_refl.
+  Qed.
+
+  (* a tie for the highest count, or no non-N call at all: the position is absent *)
+  Theorem tie_absent ds fs out k b1 b2 : bases_ok fs -> mol_consensus skip ds fs = Ok out ->
+    In b1 acgt -> In b2 acgt -> b1 <> b2 -> votes skip ds fs k b1 = votes skip ds fs k b2 ->
+    (forall b, In b acgt -> votes skip ds fs k b <= votes skip ds fs k b1) ->
+    dget k out = None.
+  Proof.
+    intros Hok H I1 I2 Hne Heq Hmax. destruct (dget k out) as [b|] eqn:E; [|reflexivity]. exfalso.
+    apply (majority_iff skip ds fs out k b Hok H) in E. destruct E as [Hin Hs].
+    destruct (Z.eq_dec b b1) as [->|N1].
+    - specialize (Hs b2 I2 (not_eq_sym Hne)). lia.
+    - specialize (Hs b1 I1 (not_eq_sym N1)). specialize (Hmax b Hin). lia.
+  Qed.
+
+  Theorem no_votes_absent ds fs out k : bases_ok fs -> mol_consensus skip ds fs = Ok out ->
+    (forall f, In f fs -> frag_call skip ds f k = None) -> dget k out = None.
+  Proof.
+    intros Hok H Hnone. destruct (dget k out) as [b|] eqn:E; [|reflexivity]. exfalso.
+    apply (majority_iff skip ds fs out k b Hok H) in E. destruct E as [Hin Hs].
+    assert (Hz : forall b', votes skip ds fs k b' = 0).
+    { intros b'. unfold votes. clear - Hnone. induction fs as [|f fs' IH]; [reflexivity|].
+      cbn [map]. rewrite zsum_cons, IH by (intros; apply Hnone; right; assumption).
+      rewrite (Hnone f) by (left; reflexivity). reflexivity. }
+    assert (Ho : exists b', In b' acgt /\ b' <> b).
+    { destruct (Z.eq_dec b bA) as [->|N]; [exists bC; split; [cbn; tauto|discriminate] | exists bA; split; [cbn; tauto|congruence]]. }
+    destruct Ho as (b' & I' & N'). specialize (Hs b' I' N'). rewrite !Hz in Hs. lia.
+  Qed.
+
+  (* outcome *)
+  Lemma two_slots_no_raise ds f : two_slots f = true -> raises skip ds f = false.
+  Proof.
+    unfold two_slots, raises, frag_consensus. intros H. apply Nat.eqb_eq in H.
+    destruct f as [|r1 [|r2 [|r3 f]]]; try discriminate. cbn [nth_error].
+    destruct (skip ds [r1; r2]); [reflexivity|]. cbn [negb andb].
+    destruct (window ds r1 r2) as [w| |] eqn:Ew; try reflexivity.
+    - destruct (read_dict w r1) as [d1| |] eqn:E1; try reflexivity.
+      + destruct (read_dict w r2) as [d2| |] eqn:E2; try reflexivity.
+        destruct r2 as [r|]; cbn [read_dict] in E2; [destruct (r_md r)|]; discriminate.
+      + destruct r1 as [r|]; cbn [read_dict] in E1; [destruct (r_md r)|]; discriminate.
+    - unfold window in Ew. destruct ds; [|discriminate]. destruct r1 as [a|], r2 as [b|]; try discriminate.
+      destruct (r_rev a && negb (r_rev b)); [discriminate|]. destruct (negb (r_rev a) && r_rev b); discriminate.
+  Qed.
+
+  Theorem consensus_total ds fs : forallb two_slots fs = true -> exists out, mol_consensus skip ds fs = Ok out.
+  Proof.
+    intros H. destruct (mol_consensus_outcome skip ds fs) as [[H1 _]|[_ H2]]; [|assumption].
+    exfalso. apply existsb_exists in H1. destruct H1 as (f & Hin & Hr). rewrite forallb_forall in H.
+    rewrite (two_slots_no_raise ds f (H f Hin)) in Hr. discriminate.
+  Qed.
+
+  Lemma pre_bases_ok fs : pre fs = true -> bases_ok fs /\ forallb two_slots fs = true.
+  Proof.
+    unfold pre, bases_ok. rewrite forallb_forall. intros H. split.
+    - intros f Hf. specialize (H f Hf). apply andb_true_iff in H. tauto.
+    - apply forallb_forall. intros f Hf. specialize (H f Hf). apply andb_true_iff in H. tauto.
+  Qed.
+
+  (* ---------------------------------------------------------------- I. insertion order and duplication *)
+  Lemma V_perm ds fs fs' k j : Permutation fs fs' -> V skip ds fs k j = V skip ds fs' k j.
+  Proof. intros H. unfold V. apply zsum_perm, Permutation_map, H. Qed.
+  Lemma existsb_perm {A} (p : A -> bool) l l' : Permutation l l' -> existsb p l = existsb p l'.
+  Proof.
+    intros H. induction H as [|x l l' H IH|x y l|l l' l'' H1 IH1 H2 IH2]; cbn [existsb].
+    - reflexivity.
+    - rewrite IH. reflexivity.
+    - destruct (p x), (p y); reflexivity.
+    - congruence.
+  Qed.
+
+  Lemma consensus_equiv ds fs1 fs2 :
+    existsb (raises skip ds) fs1 = existsb (raises skip ds) fs2 ->
+    (forall k i, strict_max (V skip ds fs1 k) i <-> strict_max (V skip ds fs2 k) i) ->
+    res_equiv (mol_consensus skip ds fs1) (mol_consensus skip ds fs2).
+  Proof.
+    intros He Hs.
+    destruct (mol_consensus_outcome skip ds fs1) as [[R1 E1]|[R1 [o1 E1]]];
+    destruct (mol_consensus_outcome skip ds fs2) as [[R2 E2]|[R2 [o2 E2]]]; rewrite E1, E2; cbn [res_equiv];
+      try exact I; try congruence.
+    intros k. apply opt_ext. intros b.
+    rewrite (consensus_general skip ds fs1 o1 k b E1), (consensus_general skip ds fs2 o2 k b E2).
+    split; intros (i & Hb & Hm); exists i; (split; [assumption|]); apply Hs; assumption.
+  Qed.
+
+  Theorem perm_invariant ds fs fs' : Permutation fs fs' ->
+    res_equiv (mol_consensus skip ds fs) (mol_consensus skip ds fs').
+  Proof.
+    intros H. apply consensus_equiv; [apply existsb_perm; assumption|].
+    intros k i. unfold strict_max. split; intros [Hi Hs]; (split; [assumption|]); intros j Hj Hne;
+      [rewrite <- !(V_perm ds fs fs' k) by assumption | rewrite !(V_perm ds fs fs' k) by assumption]; auto.
+  Qed.
+
+  Lemma V_double ds fs k j : V skip ds (fs ++ fs) k j = 2 * V skip ds fs k j.
+  Proof. unfold V. rewrite map_app, zsum_app. lia. Qed.
+
+  Theorem double_invariant ds fs fs2 : Permutation fs2 (fs ++ fs) ->
+    res_equiv (mol_consensus skip ds fs2) (mol_consensus skip ds fs).
+  Proof.
+    intros H. apply consensus_equiv.
+    - rewrite (existsb_perm _ _ _ H), existsb_app. destruct (existsb _ fs); reflexivity.
+    - intros k i. unfold strict_max. split; intros [Hi Hs]; (split; [assumption|]); intros j Hj Hne;
+        specialize (Hs j Hj Hne); rewrite !(V_perm ds fs2 (fs ++ fs) k) in * by assumption;
+        rewrite !V_double in *; lia.
+  Qed.
+
+  (* ---------------------------------------------------------------- K. one call per fragment *)
+  Definition vsum (v : vec) : Z := vnth 0 v + vnth 1 v + vnth 2 v + vnth 3 v + vnth 4 v.
+  Definition has_call (ds : bool) (k : key) (f : frag) : bool :=
+    match frag_call skip ds f k with Some _ => true | None => false end.
+
+  Lemma call_ind_sum o : (forall b, o = Some b -> base_index b <> None) ->
+    call_ind o 0 + call_ind o 1 + call_ind o 2 + call_ind o 3 + call_ind o 4 =
+    match o with Some _ => 1 | None => 0 end.
+  Proof.
+    intros H. destruct o as [b|]; [|reflexivity]. cbn [call_ind].
+    destruct (base_index b) as [i|] eqn:E; [|exfalso; exact (H b eq_refl E)].
+    pose proof (base_index_lt _ _ E). do 5 (destruct i as [|i]; [reflexivity|]). lia.
+  Qed.
+
+  Lemma frag_call_base_ok ds f k b : frag_bases_ok f = true -> frag_call skip ds f k = Some b -> base_index b <> None.
+  Proof.
+    intros Hok Hc. destruct (skip ds f) eqn:Hs; [rewrite frag_call_none in Hc by (left; assumption); discriminate|].
+    destruct (frag_consensus ds f) as [items| |] eqn:E;
+      try (rewrite frag_call_none in Hc; [discriminate|right; intros it; rewrite E; discriminate]).
+    rewrite (frag_call_items skip _ _ _ _ Hs E) in Hc.
+    destruct (dget k items) as [[b' q]|] eqn:Eg; [|discriminate]. destruct (b' =? bN); [discriminate|].
+    inversion Hc; subst. eapply frag_items_bases; [eassumption|assumption|]. apply dget_some_in. eassumption.
+  Qed.
+
+  Theorem one_call_per_fragment ds fs t k : bases_ok fs -> mol_table skip ds fs [] = Ok t ->
+    vsum (tget k t) = Z.of_nat (length (filter (has_call ds k) fs)).
+  Proof.
+    intros Hok H. unfold vsum. rewrite !(mol_table_sum skip ds fs [] t H), tget_nil, !vnth_zeros. clear H.
+    unfold V. induction fs as [|f fs' IH]; [reflexivity|].
+    cbn [map filter]. rewrite !zsum_cons.
+    assert (Hok' : bases_ok fs') by (intros g Hg; apply Hok; right; assumption).
+    specialize (IH Hok'). rewrite !contrib_ind by (apply Hok; left; reflexivity).
+    pose proof (call_ind_sum (frag_call skip ds f k)) as Hs.
+    unfold has_call at 1. destruct (frag_call skip ds f k) as [b|] eqn:E.
+    - cbn [length]. rewrite Nat2Z.inj_succ.
+      assert (Hb : forall b0, Some b = Some b0 -> base_index b0 <> None)
+        by (intros b0 Hb0; inversion Hb0; subst; eapply frag_call_base_ok; [apply Hok; left; reflexivity|eassumption]).
+      specialize (Hs Hb). lia.
+    - cbn [call_ind]. lia.
+  Qed.
+End Major2.
+
+(* ------------------------------------------------------------------ J. pick_best_base_call *)
+Definition calls_nonneg (cs : list (option call)) : Prop := forall b q, In (Some (b, q)) cs -> 0 <= q.
+
+Definition pb_inv (l : list (option call)) (s : pb_state) : Prop :=
+  ((forall c, In c l -> c = None) /\ s = pb_init) \/
+  (exists b, pb_base s = Some b /\ In (Some (b, pb_q s)) l /\
+     (forall b' q', In (Some (b', q')) l -> q' <= pb_q s) /\
+     (pb_tie s = true <-> exists b', b' <> b /\ In (Some (b', pb_q s)) l)).
+
+Lemma in_snoc {A} (x y : A) l : In x (l ++ [y]) <-> In x l \/ x = y.
+Proof. rewrite in_app_iff. cbn [In]. intuition congruence. Qed.
+
+Lemma pb_inv_step l s c : calls_nonneg (l ++ [c]) -> pb_inv l s -> pb_inv (l ++ [c]) (pb_step s c).
+Proof.
+  intros Hnn Hinv. destruct c as [[b0 q0]|].
+  - assert (Hq0 : 0 <= q0) by (apply (Hnn b0 q0), in_snoc; right; reflexivity).
+    destruct Hinv as [[Hall ->]|(b & Hb & Hin & Hle & Htie)].
+    + right. cbn [pb_step pb_init pb_q pb_base pb_tie].
+      destruct (q0 >? -1) eqn:E; [|lia]. cbn [pb_q pb_base pb_tie]. exists b0. split; [reflexivity|].
+      split; [apply in_snoc; right; reflexivity|]. split.
+      * intros b' q' H. apply in_snoc in H. destruct H as [H|H]; [apply Hall in H; discriminate|inversion H; lia].
+      * split; [discriminate|]. intros (b' & Hne & H). apply in_snoc in H.
+        destruct H as [H|H]; [apply Hall in H; discriminate|inversion H; congruence].
+    + right. cbn [pb_step]. destruct (q0 >? pb_q s) eqn:E.
+      * cbn [pb_q pb_base pb_tie]. exists b0. split; [reflexivity|]. split; [apply in_snoc; right; reflexivity|]. split.
+        -- intros b' q' H. apply in_snoc in H. destruct H as [H|H]; [specialize (Hle _ _ H); lia|inversion H; lia].
+        -- split; [discriminate|]. intros (b' & Hne & H). apply in_snoc in H.
+           destruct H as [H|H]; [specialize (Hle _ _ H); lia|inversion H; congruence].
+      * rewrite Hb. cbn [opt_is]. destruct ((q0 =? pb_q s) && negb (b =? b0)) eqn:E2.
+        -- apply andb_true_iff in E2. destruct E2 as [E2 E3]. apply Z.eqb_eq in E2.
+           apply negb_true_iff, Z.eqb_neq in E3. cbn [pb_q pb_base pb_tie]. exists b. split; [reflexivity|].
+           split; [apply in_snoc; left; assumption|]. split.
+           ++ intros b' q' H. apply in_snoc in H. destruct H as [H|H]; [eauto|inversion H; lia].
+           ++ split; [|reflexivity]. intros _. exists b0. split; [congruence|]. apply in_snoc. right. congruence.
+        -- exists b. split; [assumption|]. split; [apply in_snoc; left; assumption|]. split.
+           ++ intros b' q' H. apply in_snoc in H. destruct H as [H|H]; [eauto|inversion H; lia].
+           ++ rewrite Htie. split.
+              ** intros (b' & Hne & H). exists b'. split; [assumption|]. apply in_snoc. left. assumption.
+              ** intros (b' & Hne & H). apply in_snoc in H. destruct H as [H|H]; [exists b'; split; assumption|].
+                 inversion H; subst. rewrite Z.eqb_refl in E2. cbn [andb] in E2.
+                 apply negb_false_iff, Z.eqb_eq in E2. congruence.
+  - cbn [pb_step]. destruct Hinv as [[Hall ->]|(b & Hb & Hin & Hle & Htie)].
+    + left. split; [|reflexivity]. intros c H. apply in_snoc in H. destruct H as [H|H]; [auto|assumption].
+    + right. exists b. split; [assumption|]. split; [apply in_snoc; left; assumption|]. split.
+      * intros b' q' H. apply in_snoc in H. destruct H as [H|H]; [eauto|discriminate].
+      * rewrite Htie. split; intros (b' & Hne & H); exists b'; (split; [assumption|]).
+        -- apply in_snoc. left. assumption.
+        -- apply in_snoc in H. destruct H as [H|H]; [assumption|discriminate].
+Qed.
+
+Lemma pb_inv_fold cs : calls_nonneg cs -> pb_inv cs (fold_left pb_step cs pb_init).
+Proof.
+  induction cs as [|c l IH] using rev_ind; intros Hnn.
+  - left. split; [intros c []|reflexivity].
+  - rewrite fold_left_app. cbn [fold_left]. apply pb_inv_step; [assumption|]. apply IH.
+    intros b q H. apply (Hnn b q), in_snoc. left. assumption.
+Qed.
+
+(* the call with the highest quality wins when every call of that quality names the same base *)
+Theorem pick_unique cs b q : calls_nonneg cs -> In (Some (b, q)) cs ->
+  (forall b' q', In (Some (b', q')) cs -> q' <= q /\ (q' = q -> b' = b)) -> pick_best cs = (b, q).
+Proof.
+  intros Hnn Hin Hmax. unfold pick_best, pb_result.
+  destruct (pb_inv_fold cs Hnn) as [[Hall _]|(b0 & Hb & Hin0 & Hle & Htie)].
+  - apply Hall in Hin. discriminate.
+  - set (s := fold_left pb_step cs pb_init) in *. rewrite Hb.
+    assert (Hq : pb_q s = q) by (specialize (Hle _ _ Hin); destruct (Hmax _ _ Hin0); lia).
+    assert (Hb0 : b0 = b) by (destruct (Hmax _ _ Hin0) as [_ H]; apply H; assumption).
+    destruct (pb_tie s) eqn:Et; [|congruence].
+    destruct (proj1 Htie eq_refl) as (b' & Hne & H'). destruct (Hmax _ _ H') as [_ H]. specialize (H Hq). congruence.
+Qed.
+
+(* two calls of the highest quality naming different bases: no call ('N', 0) *)
+Theorem pick_tie cs b1 b2 q : calls_nonneg cs -> In (Some (b1, q)) cs -> In (Some (b2, q)) cs -> b1 <> b2 ->
+  (forall b' q', In (Some (b', q')) cs -> q' <= q) -> pick_best cs = (bN, 0).
+Proof.
+  intros Hnn H1 H2 Hne Hmax. unfold pick_best, pb_result.
+  destruct (pb_inv_fold cs Hnn) as [[Hall _]|(b0 & Hb & Hin0 & Hle & Htie)].
+  - apply Hall in H1. discriminate.
+  - set (s := fold_left pb_step cs pb_init) in *. rewrite Hb.
+    assert (Hq : pb_q s = q) by (specialize (Hle _ _ H1); specialize (Hmax _ _ Hin0); lia).
+    assert (Ht : pb_tie s = true).
+    { apply Htie. rewrite Hq. destruct (Z.eq_dec b1 b0) as [->|N1]; [exists b2; split; [congruence|assumption]|exists b1; split; assumption]. }
+    rewrite Ht. reflexivity.
+Qed.
+
+Theorem pick_none cs : (forall c, In c cs -> c = None) -> pick_best cs = (bN, 0).
+Proof.
+  intros Hall. unfold pick_best, pb_result.
+  assert (Hnn : calls_nonneg cs) by (intros b q H; apply Hall in H; discriminate).
+  destruct (pb_inv_fold cs Hnn) as [[_ ->]|(b0 & Hb & Hin0 & _)]; [reflexivity|].
+  apply Hall in Hin0. discriminate.
+Qed.
+
+(* the two-mate instances used by Fragment.get_consensus *)
+Lemma pick2_hi_l b1 q1 b2 q2 : 0 <= q2 < q1 -> pick_best [Some (b1, q1); Some (b2, q2)] = (b1, q1).
+Proof.
+  intros H. apply pick_unique.
+  - intros b q [E|[E|[]]]; inversion E; lia.
+  - left. reflexivity.
+  - intros b' q' [E|[E|[]]]; inversion E; subst; split; try lia; intros; reflexivity.
+Qed.
+Lemma pick2_hi_r b1 q1 b2 q2 : 0 <= q1 < q2 -> pick_best [Some (b1, q1); Some (b2, q2)] = (b2, q2).
+Proof.
+  intros H. apply pick_unique.
+  - intros b q [E|[E|[]]]; inversion E; lia.
+  - right. left. reflexivity.
+  - intros b' q' [E|[E|[]]]; inversion E; subst; split; try lia; intros; reflexivity.
+Qed.
+Lemma pick2_eq_same b q : 0 <= q -> pick_best [Some (b, q); Some (b, q)] = (b, q).
+Proof.
+  intros H. apply pick_unique.
+  - intros b' q' [E|[E|[]]]; inversion E; lia.
+  - left. reflexivity.
+  - intros b' q' [E|[E|[]]]; inversion E; subst; split; try lia; intros; reflexivity.
+Qed.
+Lemma pick2_eq_diff b1 b2 q : 0 <= q -> b1 <> b2 -> pick_best [Some (b1, q); Some (b2, q)] = (bN, 0).
+Proof.
+  intros H Hne. apply (pick_tie _ b1 b2 q); try assumption.
+  - intros b' q' [E|[E|[]]]; inversion E; lia.
+  - left. reflexivity.
+  - right. left. reflexivity.
+  - intros b' q' [E|[E|[]]]; inversion E; lia.
+Qed.
+Lemma pick1_l b q : 0 <= q -> pick_best [Some (b, q); None] = (b, q).
+Proof.
+  intros H. apply pick_unique.
+  - intros b' q' [E|[E|[]]]; inversion E; lia.
+  - left. reflexivity.
+  - intros b' q' [E|[E|[]]]; inversion E; subst; split; try lia; intros; reflexivity.
+Qed.
+Lemma pick1_r b q : 0 <= q -> pick_best [None; Some (b, q)] = (b, q).
+Proof.
+  intros H. apply pick_unique.
+  - intros b' q' [E|[E|[]]]; inversion E; lia.
+  - right. left. reflexivity.
+  - intros b' q' [E|[E|[]]]; inversion E; subst; split; try lia; intros; reflexivity.
+Qed.
+
+(* order of the two mates is irrelevant *)
+Lemma pick2_comm c1 c2 : calls_nonneg [c1; c2] -> pick_best [c1; c2] = pick_best [c2; c1].
+Proof.
+  intros Hnn. destruct c1 as [[b1 q1]|], c2 as [[b2 q2]|].
+  - assert (0 <= q1) by (apply (Hnn b1 q1); left; reflexivity).
+    assert (0 <= q2) by (apply (Hnn b2 q2); right; left; reflexivity).
+    destruct (Z.lt_trichotomy q1 q2) as [L|[E|G]].
+    + rewrite pick2_hi_r, pick2_hi_l by lia. reflexivity.
+    + subst q2. destruct (Z.eq_dec b1 b2) as [->|N]; [reflexivity|].
+      rewrite !pick2_eq_diff by (try lia; congruence). reflexivity.
+    + rewrite pick2_hi_l, pick2_hi_r by lia. reflexivity.
+  - assert (0 <= q1) by (apply (Hnn b1 q1); left; reflexivity). rewrite pick1_l, pick1_r by lia. reflexivity.
+  - assert (0 <= q2) by (apply (Hnn b2 q2); right; left; reflexivity). rewrite pick1_l, pick1_r by lia. reflexivity.
+  - reflexivity.
 Qed.
